@@ -269,12 +269,108 @@ def powers(rep, c, sfx):
                     if sel is not None:
                         for cl in [x for x in walk(sel["body"]) if kind(x) == "MethodCall" and x.get("path") == PM + "::expr"]:
                             vals.add(bp_eval(c, fn, cl["args"][-1], env))
+                if not vals:
+                    # the recursive calls are not inside the arm (the operator is selected first, acted on later):
+                    # decide from the conditions that dominate each call, evaluated for this affix / associativity
+                    vals = reachable_bps(c, fn, vpath, assoc)
                 r.instance(key, where(arm["body"]), "right binding power: %s" % sorted(map(str, vals)))
                 if vals != {want}:
                     r.violation(key, where(arm["body"]),
                                 "%s operator parses its right operand with %s, the convention is %s: e.g. a prefix "
                                 "operator sharing a level with a postfix/infix operator then groups `~a!` as `(~a)!`"
                                 % (label, sorted(map(str, vals)), want))
+
+
+def reachable_bps(c, fn, affix, assoc):
+    """Binding powers of the recursive `expr` calls of fn that are reachable when the operator is `affix` (with
+    associativity `assoc` for infix operators), judged from the conditions dominating each call."""
+    ctx = hirq.Ctx(fn)
+    lets = hirq.lets(fn["body"])
+    modes = hirq.binding_modes(fn)
+
+    def pat_ok(pat):
+        """can the pattern match an operator of this affix / associativity? (variants it names must be ours)"""
+        def ok(p):
+            k = p.get("k")
+            if k == "POr":
+                return any(ok(q) for q in p["pats"])
+            path = str(p.get("path", ""))
+            if path.startswith(AFFIX + "::") and path != affix:
+                return False
+            if path.startswith(ASSOC + "::") and assoc and path != assoc:
+                return False
+            subs = p.get("pats") or []
+            if p.get("sub") is not None:
+                subs = list(subs) + [p["sub"]]
+            if p.get("pat") is not None and isinstance(p.get("pat"), dict):
+                subs = list(subs) + [p["pat"]]
+            return all(ok(q) for q in subs)
+        return ok(pat)
+
+    def names_ours(pat):
+        return any(str(x.get("path", "")) in (affix, assoc) for x in walk(pat))
+
+    def names_variant(pat):
+        return any(str(x.get("path", "")).startswith((AFFIX + "::", ASSOC + "::")) for x in walk(pat))
+
+    def ev(e):
+        e = peel(e)
+        k = kind(e)
+        if k == "Path" and e.get("res") == "local" and e.get("ty") == "bool" and e["id"] in lets and not modes.get(e["id"]):
+            return ev(lets[e["id"]][0])
+        if k == "Unary" and e["op"] == "!":
+            v = ev(e["e"])
+            return None if v is None else (not v)
+        if k == "LetExpr":
+            if not names_variant(e["pat"]):
+                return None
+            return pat_ok(e["pat"])
+        if k == "Binary" and e["op"] in ("==", "!="):
+            for (x, y) in ((e["l"], e["r"]), (e["r"], e["l"])):
+                y = peel(y)
+                if kind(y) == "Path" and y.get("res") == "def" and str(y.get("path", "")).startswith(ASSOC + "::") and assoc:
+                    eq = (y["path"] == assoc)
+                    return eq if e["op"] == "==" else (not eq)
+            return None
+        if k == "MethodCall" and e.get("path") in ("core::cmp::PartialEq::eq", "core::cmp::PartialEq::ne") and e["args"]:
+            y = peel(e["args"][0])
+            if kind(y) == "Path" and str(y.get("path", "")).startswith(ASSOC + "::") and assoc:
+                eq = (y["path"] == assoc)
+                return eq if e["path"].endswith("::eq") else (not eq)
+        if k == "Call" and "matches" in " ".join(e.get("exp") or []):
+            return None
+        if k == "Match" and any("matches" in x for x in (e.get("exp") or [])):
+            for arm in e["arms"]:
+                if names_variant(arm["pat"]):
+                    return pat_ok(arm["pat"])
+        return None
+    env = {}
+    for x in walk(fn["body"]):
+        if x.get("k") == "PBind" and str(x.get("ty", "")).lstrip("&") in ("u32", "usize"):
+            env[x["id"]] = "prec"
+    for p_ in fn["params"]:
+        for x in walk(p_):
+            if x.get("k") == "PBind":
+                env.pop(x["id"], None)
+    out = set()
+    for cl in [x for x in walk(fn["body"]) if kind(x) == "MethodCall" and x.get("path") == PM + "::expr"]:
+        feasible = True
+        for g in ctx.guards(cl):
+            if g[0] in ("if", "not", "guard"):
+                v = ev(g[1])
+                want_truth = g[2] if g[0] != "guard" else True
+                if v is not None and v != want_truth:
+                    feasible = False
+            elif g[0] == "arm":
+                arm = g[1]["arms"][g[2]]
+                if names_variant(arm["pat"]) and not pat_ok(arm["pat"]):
+                    feasible = False
+                elif hirq.pat_is_catchall(arm["pat"]) and any(
+                        names_variant(a["pat"]) and pat_ok(a["pat"]) and a.get("guard") is None for a in g[1]["arms"][:g[2]]):
+                    feasible = False
+        if feasible:
+            out.add(bp_eval(c, fn, cl["args"][-1], env))
+    return out
 
 
 def levels(rep, c, sfx):
@@ -384,41 +480,113 @@ def climb(rep, c, sfx):
         r.violation("rec:loop-nesting", where(call),
                     "the right operand is extended at most once (no inner loop around the recursive call): "
                     "`a+b^c*d` groups as ((a+(b^c))*d)")
-    # conditions that dominate the recursive call: enclosing `if`s, enclosing arm guards, and earlier
-    # `let x = match .. { P if COND => .., _ => break }` statements (the continuation runs only under COND)
+    # conditions that dominate the recursive call, with their polarity: enclosing `if`s, arm guards, earlier
+    # `if c { break }` statements (c is false afterwards), earlier `let x = match .. { P if COND => .., _ => break }`.
+    # Precedences are only compared, so the conjunction is evaluated over all orderings of the u32 locals involved and
+    # both associativities; the set of cases in which the recursive call is reached must be exactly
+    #     prec >= min_prec   and   (new_prec > prec  or  assoc == Right and new_prec == prec)
     conds = []
     for g in ctx.guards(call):
-        if g[0] == "if" and g[2] is True:
-            conds.append(g)
+        if g[0] == "if":
+            conds.append((g[1], g[2]))
         elif g[0] == "guard":
-            conds.append(("if", g[1], True))
+            conds.append((g[1], True))
+        elif g[0] == "not":
+            conds.append((g[1], False))
         elif g[0] == "let" and g[1].get("init") is not None and kind(peel(g[1]["init"])) == "Match":
             mm = peel(g[1]["init"])
             live = [a for a in mm["arms"] if not (hirq.diverges(a["body"]) or a["body"].get("ty") == "!")]
-            if live and all(a.get("guard") is not None for a in live):
-                for a in live:
-                    conds.append(("if", a["guard"], True))
-    texts = [hirq.expr_text(peel(g[1])) for g in conds]
+            if live and all(a.get("guard") is not None for a in live) and len(live) == 1:
+                conds.append((live[0]["guard"], True))
+    lets = hirq.lets(rec["body"])
+    modes = hirq.binding_modes(rec)
+    texts = [("" if tr else "not ") + hirq.expr_text(peel(cn))[:60] for (cn, tr) in conds]
     r.instance("rec:conditions", where(call), str(texts))
-    inner = [t for t in texts if "new_prec" in t or "||" in t]
-    want_outer = any(kind(peel(g[1])) == "Binary" and peel(g[1])["op"] == ">=" for g in conds)
-    if not want_outer:
-        r.violation("rec:outer-test", where(call), "outer test is not `prec >= min_prec` (%s)" % texts)
-    ok_inner = False
-    for g in conds:
-        cnd = peel(g[1])
-        if kind(cnd) == "Binary" and cnd["op"] == "||":
-            l, rr = peel(cnd["l"]), peel(cnd["r"])
-            if kind(l) == "Binary" and l["op"] == ">" and kind(rr) == "Binary" and rr["op"] == "&&":
-                parts = [peel(rr["l"]), peel(rr["r"])]
-                has_right = any(kind(p) == "Binary" and p["op"] == "==" and any(
-                    kind(peel(s)) == "Path" and peel(s).get("path", "").endswith("Assoc::Right") for s in (p["l"], p["r"])) for p in parts)
-                has_eq = any(kind(p) == "Binary" and p["op"] == "==" and hirq.local_id(p["l"]) is not None and hirq.local_id(p["r"]) is not None for p in parts)
-                ok_inner = has_right and has_eq
+    params_u32 = set(p["id"] for p in rec["params"] if p.get("k") == "PBind" and p.get("ty") == "u32")
+    used = set()
+
+    def ev(e, env):
+        e = peel(e)
+        k = kind(e)
+        if k == "Path" and e.get("res") == "local":
+            if e.get("ty") == "u32":
+                used.add(e["id"])
+                return env.get(e["id"])
+            if e.get("ty") == "bool" and e["id"] in lets and not modes.get(e["id"]):
+                return ev(lets[e["id"]][0], env)
+            if "Assoc" in str(e.get("ty", "")):
+                return env.get("assoc")
+            return None
+        if k == "Path" and e.get("res") == "def" and str(e.get("path", "")).endswith(("Assoc::Right", "Assoc::Left")):
+            return e["path"].split("::")[-1]
+        if k == "Unary" and e["op"] == "!":
+            v = ev(e["e"], env)
+            return None if not isinstance(v, bool) else (not v)
+        if k == "Binary" and e["op"] in ("&&", "||"):
+            a, b = ev(e["l"], env), ev(e["r"], env)
+            if e["op"] == "&&":
+                if a is False or b is False:
+                    return False
+                return True if (a is True and b is True) else None
+            if a is True or b is True:
+                return True
+            return False if (a is False and b is False) else None
+        if k == "Binary" and e["op"] in ("<", "<=", ">", ">=", "==", "!="):
+            a, b = ev(e["l"], env), ev(e["r"], env)
+            if a is None or b is None or isinstance(a, bool) or isinstance(b, bool):
+                return None
+            if isinstance(a, str) != isinstance(b, str):
+                return None
+            return {"<": a < b, "<=": a <= b, ">": a > b, ">=": a >= b, "==": a == b, "!=": a != b}[e["op"]] \
+                if not isinstance(a, str) or e["op"] in ("==", "!=") else None
+        if k == "MethodCall" and e.get("path") in ("core::cmp::PartialEq::eq", "core::cmp::PartialEq::ne") and e["args"]:
+            a, b = ev(e["recv"], env), ev(e["args"][0], env)
+            if a is None or b is None:
+                return None
+            return (a == b) if e["path"].endswith("::eq") else (a != b)
+        return None
+    # discover the u32 locals the conditions mention
+    for (cn, tr) in conds:
+        ev(cn, {})
+    locs = sorted(used)
+    ok_outer = ok_inner = False
+    if 2 <= len(locs) <= 4:
+        import itertools
+        reach = set()
+        for vals in itertools.product(range(3), repeat=len(locs)):
+            for assoc in ("Left", "Right"):
+                env = dict(zip(locs, vals))
+                env["assoc"] = assoc
+                fine = True
+                for (cn, tr) in conds:
+                    v = ev(cn, env)
+                    if v is not None and v != tr:
+                        fine = False
+                        break
+                if fine:
+                    reach.add((vals, assoc))
+        mins = [x for x in locs if x in params_u32]
+        others = [x for x in locs if x not in params_u32]
+        for m in mins:
+            for p_ in others:
+                proj = set((v[locs.index(p_)], v[locs.index(m)]) for (v, a) in reach)
+                if proj == set((a, b) for a in range(3) for b in range(3) if a >= b):
+                    ok_outer = True
+                    for q in others:
+                        if q == p_:
+                            continue
+                        # the inner test is independent of min_prec: look at the slice min_prec = 0
+                        proj2 = set((v[locs.index(q)], v[locs.index(p_)], a) for (v, a) in reach if v[locs.index(m)] == 0)
+                        want2 = set((a, b, s) for a in range(3) for b in range(3) for s in ("Left", "Right")
+                                    if a > b or (s == "Right" and a == b))
+                        if proj2 == want2:
+                            ok_inner = True
+    if not ok_outer:
+        r.violation("rec:outer-test", where(call), "the operator loop is not entered exactly when `prec >= min_prec` (%s)" % texts)
     r.instance("rec:inner-test", where(call))
     if not ok_inner:
-        r.violation("rec:inner-test", where(call), "inner test is not `new_prec > prec || assoc == Right && new_prec "
-                    "== prec` (%s)" % texts)
+        r.violation("rec:inner-test", where(call), "the right operand is not extended exactly when `new_prec > prec || "
+                    "assoc == Right && new_prec == prec` (%s)" % texts)
 
 
 def lookup(rep, c, sfx):
